@@ -111,6 +111,11 @@ pub struct Report {
     pub exhaustive: Option<bool>,
     pub inconclusive: Vec<String>,
     pub sub_evals: BTreeMap<String, u64>,
+    /// harness-level hiccups of single cases (a local HTTP request that failed under machine
+    /// load, a settle watchdog): the case is skipped and counted; the run only becomes
+    /// inconclusive when they are more than a few (see `run_check`)
+    #[serde(default)]
+    pub transient: Vec<String>,
 }
 
 impl Report {
@@ -141,6 +146,7 @@ impl Report {
         self.violations.extend(other.violations);
         self.notes.extend(other.notes);
         self.inconclusive.extend(other.inconclusive);
+        self.transient.extend(other.transient);
         self.exhaustive = match (self.exhaustive, other.exhaustive) {
             (Some(a), Some(b)) => Some(a && b),
             (a, None) => a,
@@ -679,6 +685,18 @@ pub fn run_check(def: &PropertyDef, tier: Tier, seed: u64) -> i32 {
         }
     }
     inconclusive.extend(merged.inconclusive.iter().cloned());
+    // skipped cases: tolerated while they are few (at most 2, or 5% of the evaluations)
+    if !merged.transient.is_empty() {
+        let n = merged.transient.len() as u64;
+        if n > 2 && n * 20 > merged.evaluations {
+            inconclusive.extend(merged.transient.iter().cloned());
+        } else {
+            *merged.classes.entry("skipped/harness-level-error".into()).or_default() += n;
+            for t in merged.transient.iter().take(4) {
+                merged.notes.push(format!("case skipped on a harness-level error: {}", t.chars().take(300).collect::<String>()));
+            }
+        }
+    }
 
     let known = load_known(id);
     // known findings that reproduced
